@@ -1917,7 +1917,7 @@ func (p *wat2cWorker) buildFunc_ins(w io.Writer, fn *ast.Func, stk *valueTypeSta
 	case token.INS_F32_NEG:
 		sp0 := stk.Pop(token.F32)
 		ret0 := stk.Push(token.F32)
-		fmt.Fprintf(w, "%sR%d.f32 = 0-R%d.f32; // %s\n",
+		fmt.Fprintf(w, "%sR%d.f32 = -R%d.f32; // %s\n",
 			indent, ret0, sp0,
 			insString(i),
 		)
@@ -1945,7 +1945,7 @@ func (p *wat2cWorker) buildFunc_ins(w io.Writer, fn *ast.Func, stk *valueTypeSta
 	case token.INS_F32_NEAREST:
 		sp0 := stk.Pop(token.F32)
 		ret0 := stk.Push(token.F32)
-		fmt.Fprintf(w, "%sR%d.f32 = roundf(R%d.f32); // %s\n",
+		fmt.Fprintf(w, "%sR%d.f32 = nearbyintf(R%d.f32); // %s\n",
 			indent, ret0, sp0,
 			insString(i),
 		)
@@ -1992,7 +1992,7 @@ func (p *wat2cWorker) buildFunc_ins(w io.Writer, fn *ast.Func, stk *valueTypeSta
 		sp0 := stk.Pop(token.F32)
 		sp1 := stk.Pop(token.F32)
 		ret0 := stk.Push(token.F32)
-		fmt.Fprintf(w, "%sR%d.f32 = fminf(R%d.f32, R%d.f32); // %s\n",
+		fmt.Fprintf(w, "%sR%d.f32 = F32_MIN(R%d.f32, R%d.f32); // %s\n",
 			indent, ret0, sp1, sp0,
 			insString(i),
 		)
@@ -2000,7 +2000,7 @@ func (p *wat2cWorker) buildFunc_ins(w io.Writer, fn *ast.Func, stk *valueTypeSta
 		sp0 := stk.Pop(token.F32)
 		sp1 := stk.Pop(token.F32)
 		ret0 := stk.Push(token.F32)
-		fmt.Fprintf(w, "%sR%d.f32 = fmaxf(R%d.f32, R%d.f32); // %s\n",
+		fmt.Fprintf(w, "%sR%d.f32 = F32_MAX(R%d.f32, R%d.f32); // %s\n",
 			indent, ret0, sp1, sp0,
 			insString(i),
 		)
@@ -2022,7 +2022,7 @@ func (p *wat2cWorker) buildFunc_ins(w io.Writer, fn *ast.Func, stk *valueTypeSta
 	case token.INS_F64_NEG:
 		sp0 := stk.Pop(token.F64)
 		ret0 := stk.Push(token.F64)
-		fmt.Fprintf(w, "%sR%d.f64 = 0-R%d.f64; // %s\n",
+		fmt.Fprintf(w, "%sR%d.f64 = -R%d.f64; // %s\n",
 			indent, ret0, sp0,
 			insString(i),
 		)
@@ -2050,7 +2050,7 @@ func (p *wat2cWorker) buildFunc_ins(w io.Writer, fn *ast.Func, stk *valueTypeSta
 	case token.INS_F64_NEAREST:
 		sp0 := stk.Pop(token.F64)
 		ret0 := stk.Push(token.F64)
-		fmt.Fprintf(w, "%sR%d.f64 = round(R%d.f64); // %s\n",
+		fmt.Fprintf(w, "%sR%d.f64 = nearbyint(R%d.f64); // %s\n",
 			indent, ret0, sp0,
 			insString(i),
 		)
@@ -2097,7 +2097,7 @@ func (p *wat2cWorker) buildFunc_ins(w io.Writer, fn *ast.Func, stk *valueTypeSta
 		sp0 := stk.Pop(token.F64)
 		sp1 := stk.Pop(token.F64)
 		ret0 := stk.Push(token.F64)
-		fmt.Fprintf(w, "%sR%d.f64 = fmin(R%d.f64, R%d.f64); // %s\n",
+		fmt.Fprintf(w, "%sR%d.f64 = F64_MIN(R%d.f64, R%d.f64); // %s\n",
 			indent, ret0, sp1, sp0,
 			insString(i),
 		)
@@ -2105,7 +2105,7 @@ func (p *wat2cWorker) buildFunc_ins(w io.Writer, fn *ast.Func, stk *valueTypeSta
 		sp0 := stk.Pop(token.F64)
 		sp1 := stk.Pop(token.F64)
 		ret0 := stk.Push(token.F64)
-		fmt.Fprintf(w, "%sR%d.f64 = fmax(R%d.f64, R%d.f64); // %s\n",
+		fmt.Fprintf(w, "%sR%d.f64 = F64_MAX(R%d.f64, R%d.f64); // %s\n",
 			indent, ret0, sp1, sp0,
 			insString(i),
 		)
